@@ -25,6 +25,9 @@
 ///
 
 #include <primesieve/CpuInfo.hpp>
+#if defined(PRIMESIEVE_VERIF)
+  #include <cstdlib>
+#endif
 #include <primesieve/macros.hpp>
 
 #include <algorithm>
@@ -633,7 +636,16 @@ namespace primesieve {
 
 void CpuInfo::init()
 {
+#if defined(PRIMESIEVE_VERIF)
+  // Hook for the verification harness (only with -DPRIMESIEVE_VERIF):
+  // read the cache topology from a substituted sysfs tree.
+  const char* verifSysRoot = std::getenv("PRIMESIEVE_VERIF_SYSROOT");
+  std::string sysRoot = verifSysRoot ? verifSysRoot : "";
+#endif
   std::string cpusOnline = "/sys/devices/system/cpu/online";
+#if defined(PRIMESIEVE_VERIF)
+  cpusOnline = sysRoot + cpusOnline;
+#endif
   logicalCpuCores_ = parseThreadList(cpusOnline);
 
   using CacheSize_t = std::size_t;
@@ -665,6 +677,9 @@ void CpuInfo::init()
     for (std::size_t i = 0; i <= 3; i++)
     {
       std::string path = "/sys/devices/system/cpu/cpu" + std::to_string(cpuId) + "/cache/index" + std::to_string(i);
+#if defined(PRIMESIEVE_VERIF)
+      path = sysRoot + path;
+#endif
       std::string cacheLevel = path + "/level";
       std::size_t level = getValue(cacheLevel);
 
@@ -703,6 +718,9 @@ void CpuInfo::init()
     for (std::size_t i = 0; i <= 3; i++)
     {
       std::string path = "/sys/devices/system/cpu/cpu" + std::to_string(cpuId) + "/cache/index" + std::to_string(i);
+#if defined(PRIMESIEVE_VERIF)
+      path = sysRoot + path;
+#endif
       std::string cacheLevel = path + "/level";
       std::size_t level = getValue(cacheLevel);
 
